@@ -1,5 +1,8 @@
 #include "binary_unary.h"
 #include "../../../../common/debug.h"
+#ifdef CB_VERIF
+#include "../../../../common/cb_verif_hook.h"
+#endif
 #include "../../../../common/type_helpers.h"
 #include "../../core/pointer_metadata.h"
 #include "../../event_loop/event_loop.h"        // v0.12.0 Phase 8: EventLoop
@@ -1077,8 +1080,24 @@ TypedValue evaluate_await(
 
                     // run_until_complete
                     // で待機（待機中の親タスクはスキップされる）
+#ifdef CB_VERIF
+                    if (current_task_id >= 0) {
+                        cb_verif_trace("await_task %d %d", current_task_id,
+                                       awaited_task_id);
+                    } else {
+                        cb_verif_trace("await_main %d", awaited_task_id);
+                    }
+#endif
                     interpreter.get_simple_event_loop().run_until_complete(
                         awaited_task_id);
+#ifdef CB_VERIF
+                    if (current_task_id >= 0) {
+                        cb_verif_trace("resume_task %d %d", current_task_id,
+                                       awaited_task_id);
+                    } else {
+                        cb_verif_trace("resume_main %d", awaited_task_id);
+                    }
+#endif
 
                     // run_until_complete後、最新のFutureから値を取得
                     Variable value_member_updated;
@@ -1189,6 +1208,11 @@ TypedValue evaluate_await(
                     future_var.struct_members.find("task_id");
                 if (task_id_it_ready != future_var.struct_members.end()) {
                     int task_id_ready = task_id_it_ready->second.value;
+#ifdef CB_VERIF
+                    cb_verif_trace("await_ready %d %d",
+                                   interpreter.get_current_executing_task_id(),
+                                   task_id_ready);
+#endif
 
                     const AsyncTask *task_ready =
                         interpreter.get_simple_event_loop().get_task(
